@@ -142,14 +142,21 @@ CODEC_FILES = ('mido/messages/encode.py', 'mido/messages/decode.py', 'mido/messa
 def check_threads(case):
     """The codec is a set of pure functions: two threads converting different messages get the results the reference
     gives for each, wherever the thread switch falls (statement granularity inside the codec modules)."""
-    from lib.sched import run_threads
+    from lib.sched import fresh_mido, run_threads
     da, db = case['a'], case['b']
+    # 'fresh': the very first conversions in the life of the package happen inside the two threads (tables or caches
+    # that are filled lazily on first use are then filled under preemption)
+    lib = fresh_mido() if case.get('fresh') else mido
 
     def worker(d):
         def body():
-            m = mido.Message(d['type'], **{k: v for k, v in d.items() if k != 'type'})
+            if case.get('fresh') == 'decode-first':
+                back = lib.Message.from_bytes(R.ref_encode(d), time=d['time'])
+                m = lib.Message(d['type'], **{k: v for k, v in d.items() if k != 'type'})
+                return m.bytes(), back, m.hex()
+            m = lib.Message(d['type'], **{k: v for k, v in d.items() if k != 'type'})
             raw = m.bytes()
-            back = mido.Message.from_bytes(R.ref_encode(d), time=d['time'])
+            back = lib.Message.from_bytes(R.ref_encode(d), time=d['time'])
             return raw, back, m.hex()
         return body
     results, errors, steps, reason = run_threads(CODEC_FILES, [worker(da), worker(db)], schedule=case.get('sched'),
@@ -263,6 +270,15 @@ def thread_shard(rec, shard):
         for i in range(steps):
             rec.check({'kind': 'threads', 'a': a, 'b': b, 'sched': [[i, 1]], 'first': first}, distinct=True,
                       sample=(i == 7 and first == 0), classes=('threads',))
+    # the same with a freshly imported package per schedule (first use under preemption), decoding or encoding first
+    for fresh in ('decode-first', 'encode-first'):
+        base = {'kind': 'threads', 'a': a, 'b': b, 'sched': [], 'first': 0, 'fresh': fresh}
+        rec.check(base, sample=False)
+        steps = LAST_STEPS[0]
+        for i in range(0, steps):
+            if rec.keep(i, 4):
+                rec.check({'kind': 'threads', 'a': a, 'b': b, 'sched': [[i, 1]], 'first': 0, 'fresh': fresh}, distinct=True,
+                          sample=False, classes=('threads-first-use',))
 
 
 def main(ctx):
